@@ -305,6 +305,8 @@ def result_type(
         else:
             np_dtypes.append(dtype.to_numpy_dtype())
 
+    if len({np_dtype.kind == "U" for np_dtype in np_dtypes}) > 1:
+        raise TypeError("Cannot promote string and non-string data types")
     ret_dtype = dtypes.from_numpy_dtype(np.result_type(*np_dtypes))
     if nullable:
         return dtypes.into_nullable(ret_dtype)
